@@ -2,7 +2,7 @@ import S3V.Base.Bytes
 import S3V.Model.DtoText
 import S3V.Model.DtoCivil
 /-!
-# Model of `s3s::dto::Timestamp` (crates/s3s/src/dto/timestamp.rs, after commits b76964b and 4f99c94)
+# Model of `s3s::dto::Timestamp` (crates/s3s/src/dto/timestamp.rs, after commits b76964b, 4f99c94 and 62f4e8c)
 
 and of the parts of `time` 0.3.41 it calls:
 * `OffsetDateTime::parse(s, &Rfc3339)` = `Rfc3339::parse_offset_date_time` (parsing/parsable.rs:611),
@@ -105,7 +105,8 @@ def parseOffset (input : Bytes) : Option (Int × Bytes) :=
       some (if c = 45 then -secs else secs, r)
     else none
 
-def parseRfc3339 (input : Bytes) : Option Ts := do
+/-- `OffsetDateTime::parse(s, &Rfc3339)` -/
+def parseRfc3339Time (input : Bytes) : Option Ts := do
   let (year, input) ← exactlyDigits 4 input 0
   let input ← expectChar 45 input
   let (month, input) ← exactlyDigits 2 input 0
@@ -133,6 +134,19 @@ def parseRfc3339 (input : Bytes) : Option Ts := do
 def toUtc (t : Ts) : Option (Int × Nat × Nat × Nat) :=
   let f := utcFields t.unix
   if -9999 ≤ f.1 && f.1 ≤ 9999 then some f else none
+
+/-- the `DateTime` arm of `Timestamp::parse` (since 62f4e8c): `time`'s RFC 3339 parser, then
+    `match ans.checked_to_offset(UTC) { Some(utc) if (0..=9999).contains(&utc.year()) => ans, _ => Err(Overflow) }` —
+    a text whose instant, expressed in UTC, is outside the years 0000 … 9999 is refused (both text forms are
+    written in UTC with a four-digit year; before, `9999-12-31T23:59:59-01:00` was accepted and `fmt_timestamp`
+    panicked on the value: finding F-xml-7, fixed). The timestamp keeps the offset it was written with. -/
+def parseRfc3339 (input : Bytes) : Option Ts :=
+  match parseRfc3339Time input with
+  | none => none
+  | some t =>
+    match toUtc t with
+    | some (y, _, _, _) => if 0 ≤ y && y ≤ 9999 then some t else none
+    | none => none
 
 /-- `[year]`: sign only when negative, four digits -/
 def fmtYear (y : Int) : Bytes := (if y < 0 then [45] else []) ++ pad4 y.natAbs
